@@ -69,7 +69,14 @@ inline std::vector<Op> g_history(Tape &t, int flavor = SEG_ANY, bool withObserve
   GenUri b = g_base(t, t.chance(4, 5), flavor);
   Op p0; p0.kind = 'P'; p0.text = b.text(); ops.push_back(p0);
   Op p1; p1.kind = 'P';
-  switch (t.weighted({5, 3, 2, 3})) {
+  switch (t.weighted({5, 3, 2, 3, 1})) {
+    case 4: {  // the base itself with another query / fragment (identical path)
+      GenUri s = b;
+      s.hasQuery = !b.hasQuery; s.query = "sq";
+      s.hasFrag = t.coin(); s.frag = "sf";
+      p1.text = s.text();
+      break;
+    }
     case 0: p1.text = g_ref(t, b, nullptr, flavor).text(); break;
     case 3: {  // a sibling of the base: same scheme and authority, the base's directory plus one to three fresh segments
       GenUri s = b;
